@@ -174,6 +174,44 @@ def parseCMask : Val → Option (CMask Float)
         | _ => none))
   | _ => none
 
+/-- the mask with the spelling of every value: `(flat lo hi)` a tuple, `(flatl lo hi)` a list `[lo, hi]`, `(list ivs)` a
+list of tuples, `(listl ivs)` a list of lists, `(tup ivs)` a tuple of tuples, `(tupl ivs)` a tuple of lists -/
+def parseCMaskS : Val → Option (CMaskS Float)
+  | .sym "none" => some .none
+  | .sym "other" => some .other
+  | .list [.sym "dict", .list es] => do
+      pure (.dict (← es.mapM fun
+        | .list [k, v] => do
+            let key ← (match k with
+              | .sym "none" => some CKey.none
+              | .sym "bad" => some CKey.bad
+              | .int i => some (CKey.int i)
+              | _ => none)
+            let val ← (match v with
+              | .sym "bad" => some ({ val := CVal.bad, outerList := false, innerTuples := false } : SVal Float)
+              | .list [.sym "flat", a, b] => do pure { val := CVal.flat (← a.asFloat?) (← b.asFloat?), outerList := false, innerTuples := false }
+              | .list [.sym "flatl", a, b] => do pure { val := CVal.flat (← a.asFloat?) (← b.asFloat?), outerList := true, innerTuples := false }
+              | .list [.sym "list", l] => do pure { val := CVal.list (← parseIvs l), outerList := true, innerTuples := true }
+              | .list [.sym "listl", l] => do pure { val := CVal.list (← parseIvs l), outerList := true, innerTuples := false }
+              | .list [.sym "tup", l] => do pure { val := CVal.list (← parseIvs l), outerList := false, innerTuples := true }
+              | .list [.sym "tupl", l] => do pure { val := CVal.list (← parseIvs l), outerList := false, innerTuples := false }
+              | _ => none)
+            pure (key, val)
+        | _ => none))
+  | _ => none
+
+def pSpell (s : SVal Float) : String :=
+  match s.val with
+  | .flat _ _ => if s.outerList then "flatl" else "flat"
+  | .list _ => if s.outerList then (if s.innerTuples then "list" else "listl") else (if s.innerTuples then "tup" else "tupl")
+  | .bad => "bad"
+
+def pAfter (m : SDict Float) : String :=
+  "(" ++ " ".intercalate (m.map fun kv =>
+    (match kv.1 with
+      | none => "(none "
+      | some i => s!"({i} ") ++ pSpell kv.2 ++ ")") ++ ")"
+
 def parsePerms : Val → Option (Option (List (List Nat)))
   | .sym "none" => some none
   | .list (.sym "p" :: ps) => do pure (some (← ps.mapM Val.asNats?))
@@ -274,8 +312,8 @@ def handle : Handler
     let some clip := (kw? args "clip").bind Val.asBool? | return "bad-op"
     let some limit := (kw? args "limit").bind Val.asFloat? | return "bad-op"
     let some samples := (kw? args "samples").bind optInt? | return "bad-op"
-    let some mask := (kw? args "mask").bind parseCMask | return "bad-op"
-    match collapseCost (-finf) finf addCount hist costs perms clip limit samples mask with
+    let some mask := (kw? args "mask").bind parseCMaskS | return "bad-op"
+    match collapseCostS (-finf) finf addCount hist costs perms clip limit samples mask with
     | .ok r =>
       let size := (hist.head?.map List.length).getD 0
       let srt := (List.range size).all fun p =>
@@ -284,7 +322,7 @@ def handle : Handler
           | some ps => ps.getD p []
           | none => sortPerm col
         sortedL (perm.filterMap fun i => col[i]?)
-      return s!"ok res={pBDict r} chain={pB (r.all fun kv => chainOrd kv.2)} sorted={pB srt}"
+      return s!"ok res={pBDict r} chain={pB (r.all fun kv => chainOrd kv.2)} sorted={pB srt} after={pAfter (maskAfter mask)}"
     | .error e => return s!"err {e.str}"
   | .sym "ivinter" :: args => Id.run do
     -- tools._interval_intersection
